@@ -51,3 +51,27 @@ package digest
 //@   ensures [negative-size-rejected] result1 == nil ==> sizeBytes >= 0
 //@   ensures [bad-digest-on-error] result1 != nil ==> result0.value == BadDigest.value
 //@   loop 0 invariant true
+
+// Validation on construction, unchecked accessors afterwards: the one place
+// that packs a digest string without looking at its parts may only be handed a
+// hash of the prescribed length and a size that is not negative. Every caller
+// under contract has to have checked that (NewDigest does; the compact binary
+// decoder goes through NewDigest).
+//@ func (Function).newDigestUnchecked
+//@   trusted
+//@   requires [only-validated-values] len(hash) == 2 * f.bareFunction.hashBytesSize && sizeBytes >= 0
+//@   modifies nothing
+//@ extern encoding/hex.EncodeToString
+//@   modifies nothing
+//@   ensures len(result) == 2 * len(src)
+//@ extern encoding/binary.ReadVarint
+//@   modifies *
+// A digest function that was handed out has a hash size (trusted: table lookup).
+//@ func (InstanceName).GetDigestFunction
+//@   trusted
+//@   modifies nothing
+//@   ensures result1 == nil ==> result0.bareFunction != nil && result0.bareFunction.hashBytesSize >= 1
+//@ func (InstanceName).NewDigestFromCompactBinary
+//@   requires r != nil
+//@   ensures [bad-digest-on-error] result1 != nil ==> result0.value == BadDigest.value
+//@   loop 0 invariant 0 <= i && len(hash) == i && unchanged(digestFunction.bareFunction.hashBytesSize)
